@@ -9,7 +9,7 @@ from common import Cvec, R, fl
 
 from common import hc_pre_build as pre_build  # noqa: E402,F401  (C09C18 builds on the generated run() programs)
 
-LEAN_MODULES = ["PyomaVerif.Props.C18", "PyomaVerif.Mutants.C18", "PyomaVerif.Props.C09C18"]
+LEAN_MODULES = ["PyomaVerif.Props.C18", "PyomaVerif.Mutants.C18", "PyomaVerif.Props.C09C18", "PyomaVerif.Props.C18Contracts", "PyomaVerif.Props.C18MacLink"]
 THEOREMS = [
     # composition C09 o C18: the kept poles satisfy the criteria for the library's own MPC/MPD definitions
     "PV.C09C18.kept_iff_of_check",
@@ -51,6 +51,35 @@ THEOREMS = [
     "PV.C18.C18_mpd_dir_scale",
     "PV.C18.C18_mpd_scale",
     "PV.C18.C18_collinear_mpd_svd",
+    # depth round (gap 10): the 2x2 contracts discharged by closed forms, MPD as an Option (Props/C18Contracts.lean)
+    "PV.C18.C18_eig_contract_iff_charpoly",
+    "PV.C18.C18_eig_contract_eigvec",
+    "PV.C18.C18_eigvals_contract",
+    "PV.C18.C18_eig_contract_unique",
+    "PV.C18.C18_mpc_eig_order",
+    "PV.C18.C18_mpcEig_closed",
+    "PV.C18.C18_mpcEig_bounds",
+    "PV.C18.C18_mpcEig_scale",
+    "PV.C18.C18_mpcEig_collinear",
+    "PV.C18.C18_eigvals_real",
+    "PV.C18.C18_minorDir_svd",
+    "PV.C18.C18_minorDir_ne",
+    "PV.C18.C18_tie_iff",
+    "PV.C18.C18_mpd_svd_closed",
+    "PV.C18.C18_mpdClosed_scale",
+    "PV.C18.C18_mpdClosed_collinear",
+    "PV.C18.C18_mpdClosed_bounds",
+    "PV.C18.C18_svd_fact_minor",
+    "PV.C18.C18_mpd_svd_fact_closed",
+    "PV.C18.C18_mpd_den_pos",
+    "PV.C18.C18_mpd_some",
+    "PV.C18.C18_mpd_none_iff",
+    "PV.C18.C18_mpd_finite",
+    # the three models of gen.MAC are one function (Props/C18MacLink.lean)
+    "PV.C18.C18_scMac_eq_macEntry",
+    "PV.C18.C18_scMac_eq_mac",
+    "PV.C18.C18_efddMac_eq_macEntry",
+    "PV.C18.C18_efddMac_getD",
     "PV.Mutants.C18.mpcOld_constant_nan",
     "PV.Mutants.C18.mpdOld_zero_component_nan",
     "PV.Mutants.C18.arccosOld_above_one_nan",
@@ -64,13 +93,20 @@ RULE = (
     "matrix and malformed arguments), MSF, MCF compared with the exact model value at a rounding-only tolerance; MPC: np.cov "
     "vs exact covariance, returned value vs exact closed form and vs the model fed with the recorded eigenvalues (contract "
     "trace/determinant checked); MPD: the model run over IEEE doubles with the recorded right singular vectors, and the exact "
-    "rational squared arccos arguments. oracle: from the property text on gen.* only (bounds, finiteness, shape, transposition "
+    "rational squared arccos arguments; depth round: gen.MPD vs mpdClosed? over IEEE doubles (SVD step in closed form, nothing "
+    "recorded; the zero shape gives NaN = none), mpd? with the recorded direction, closed-form singular values and minor direction "
+    "vs np.linalg.svd, closed-form eigenvalues vs np.linalg.eigvals, gen.MPC vs mpc? fed with the closed-form eigenvalues. oracle: from the property text on gen.* only (bounds, finiteness, shape, transposition "
     "symmetry, invariance under complex factors of modulus 1e-6..1e6, exact collinear values, MSF(v, s v) = s). "
     "distinct = distinct (function, kind, n) triples"
 )
 EXTRA_TRUSTED = [
-    "np.linalg.eigvals contract on the 2x2 covariance (sum = trace, product = determinant; checked numerically on every case)",
-    "np.linalg.svd contract (second right singular vector spans the minor direction of [Re, Im]; null direction for rank one)",
+    "np.linalg.eigvals on the 2x2 covariance returns the roots of its characteristic polynomial (= sum trace, product determinant: "
+    "C18_eig_contract_iff_charpoly; discharged by the closed form Sym2.eigvals, which is compared with LAPACK on every case)",
+    "np.linalg.svd returns a singular value decomposition (A = U S V^T, orthonormal factors, s0 >= s1 >= 0: stream svd[fact] checks it "
+    "on every case); from it V[:,1] is an eigenvector of the 2x2 Gram matrix of [Re, Im] for its smaller eigenvalue "
+    "(C18_svd_fact_minor) (discharged by the closed form "
+    "Sym2.minorDir - C18_minorDir_svd, C18_mpd_svd_closed - which is compared with LAPACK and, through mpdClosed, with gen.MPD on every "
+    "case without an exact/near tie of the singular values)",
     "np.arccos / np.sqrt / np.abs as the real functions on [0,1] resp. [0,inf); Lean Float (C libm) for the float run of mpd",
 ]
 ASSUMPTIONS = [
@@ -422,6 +458,97 @@ def _corr_mpd(ctx, gen, g):
     ctx.count(f"corr_kind_{kind}")
 
 
+def _corr_mpd_closed(ctx, gen, g):
+    """gen.MPD against the model with the SVD step in closed form (Sym2.minorDir of the Gram matrix) run over IEEE
+    doubles - nothing recorded from LAPACK; plus mpd? (None = NaN) with the recorded direction, the closed-form
+    singular values / minor direction against np.linalg.svd, and the zero shape (0/0)."""
+    n = pick_n(ctx, 24)
+    kind = ctx.rng.choice(KINDS)
+    phi, _ = gen_shape(ctx, g, n, kind)
+    if ctx.rng.random() < 0.04:
+        kind, phi = "zero", np.zeros(n, dtype=complex)
+    A = np.c_[phi.real, phi.imag]
+    U, s, VT = np.linalg.svd(A)
+    V = VT.T
+    # the hypotheses of C18_svd_fact_minor (SvdFact): A = U[:, :2] diag(s) V^T, orthonormal factors, s0 >= s1 >= 0
+    sc = max(float(s[0]), 1e-300)
+    fact = max(float(np.max(np.abs(U[:, :2] * s @ VT - A))) / sc, float(np.max(np.abs(U[:, :2].T @ U[:, :2] - np.eye(2)))),
+               float(np.max(np.abs(VT @ VT.T - np.eye(2)))))
+    margin(ctx, "corr_svd_fact", fact, 1e-12)
+    ctx.corr("svd[fact]", fact <= 1e-12 and s[0] >= s[1] >= 0, {"phi": Cvec(phi)}, None, fact, (kind, n))
+    with np.errstate(all="ignore"):
+        val = float(gen.MPD(phi))
+    pb = [[bits(z.real), bits(z.imag)] for z in phi]
+    key = (kind, n)
+    shown = {"phi": Cvec(phi)}
+    # mpd? with the recorded direction: NaN <-> none
+    mo = ctx.model("c18_mpd_opt_float", phi=pb, v01=bits(V[0, 1]), v11=bits(V[1, 1]))["mpd"]
+    mov = math.nan if mo is None else unbits(mo["bits"])
+    ok = (mo is None) == math.isnan(val) and (mo is None) == (not np.any(phi != 0)) and close(val, mov, 2e-7, ctx, "corr_MPD_opt")
+    ctx.corr("MPD[opt]", ok, shown, None if mo is None else mov, val, key)
+    mc = ctx.model("c18_mpd_closed_float", phi=pb)
+    mcv = math.nan if mc["mpd"] is None else unbits(mc["mpd"]["bits"])
+    if kind == "zero":
+        ctx.corr("MPD[closed]", mc["mpd"] is None and math.isnan(val), shown, mcv, val, key)
+        ctx.count("corr_mpd_closed_zero_shape")
+        return
+    # squares of the singular values = eigenvalues of the Gram matrix (closed form)
+    l0, l1 = unbits(mc["l0"]), unbits(mc["l1"])
+    s0sq = float(s[0]) ** 2
+    oksv = abs(l0 - s0sq) <= 1e-12 * s0sq and abs(l1 - float(s[1]) ** 2) <= 1e-12 * s0sq
+    margin(ctx, "corr_svd_sv", max(abs(l0 - s0sq), abs(l1 - float(s[1]) ** 2)), 1e-12 * s0sq)
+    ctx.corr("svd[closed-sv]", oksv, shown, [l0, l1], [s0sq, float(s[1]) ** 2], key)
+    gap = (s[0] - s[1]) / s[0]
+    if gap < 1e-6:
+        # (nearly) equal singular values: the minor direction is arbitrary, MPD depends on it (excluded by the theorems)
+        ctx.skipped += 1
+        ctx.count("corr_mpd_closed_tie_skipped")
+        return
+    x, y = unbits(mc["v01"]), unbits(mc["v11"])
+    nrm = math.hypot(x, y)
+    cross = abs(x * V[1, 1] - y * V[0, 1]) / nrm if nrm > 0 else math.inf
+    margin(ctx, "corr_svd_dir", cross, 1e-12 / gap)
+    ctx.corr("svd[closed-dir]", cross <= 1e-12 / gap, shown, [x / nrm, y / nrm], [float(V[0, 1]), float(V[1, 1])], key)
+    tol = 2e-7 + 1e-12 / gap
+    ctx.corr("MPD[closed]", mc["mpd"] is not None and close(val, mcv, tol, ctx, "corr_MPD_closed"), shown, mcv, val, key)
+    ctx.count(f"corr_kind_{kind}")
+
+
+def _corr_mpc_eigclosed(ctx, gen, g):
+    """np.linalg.eigvals of the 2x2 covariance against the closed form Sym2.eigvals run over IEEE doubles, and gen.MPC
+    against mpc? fed with the closed-form eigenvalues (= mpcEig?): the whole of gen.MPC with nothing recorded."""
+    n = pick_n(ctx, 24)
+    kind = ctx.rng.choice(KINDS)
+    phi, _ = gen_shape(ctx, g, n, kind)
+    S = np.cov(phi.real, phi.imag)
+    lam = np.linalg.eigvals(S)
+    val = gen.MPC(phi)
+    key = (kind, n)
+    e = ctx.model("c18_eigvals_float", a=bits(S[0, 0]), b=bits(S[0, 1]), d=bits(S[1, 1]))
+    l0, l1 = unbits(e["l0"]), unbits(e["l1"])
+    sc = abs(S[0, 0]) + abs(S[1, 1]) + abs(S[0, 1])
+    shown = {"phi": Cvec(phi), "S": [S[0, 0], S[0, 1], S[1, 1]]}
+    lam_ok = np.all(np.isfinite(lam)) and ((not np.iscomplexobj(lam)) or np.all(lam.imag == 0))
+    if lam_ok:
+        ls = sorted([float(lam[0].real), float(lam[1].real)], reverse=True)
+        err = max(abs(ls[0] - l0), abs(ls[1] - l1))
+        margin(ctx, "corr_eigvals", err, 1e-12 * sc)
+        ctx.corr("eigvals[closed]", err <= 1e-12 * sc, shown, [l0, l1], ls, key)
+    else:
+        ctx.corr("eigvals[closed]", False, shown, [l0, l1], str(lam), key)
+    rho = spread_ratio(phi)
+    if not (rho == math.inf or rho < 1e20) or not (math.isfinite(l0) and math.isfinite(l1)):
+        ctx.skipped += 1
+        return
+    m = ctx.model("c18_mpc", phi=Cvec(phi), l0=R(l0), l1=R(l1))
+    v = float(complex(val).real)
+    # the eigenvalues were computed from the rounded covariance: same tolerance as MPC[eig] / MPC[closed]
+    tol = 1e-9 if fl(m["S"][0]) + fl(m["S"][2]) == 0.0 else 1e-11
+    ok = m["eig"] is not None and complex(val).imag == 0 and close(v, fl(m["eig"]), tol, ctx, "corr_MPC_eigclosed")
+    ctx.corr("MPC[eig-closed]", ok, shown, m["eig"], v, key)
+    ctx.count(f"corr_kind_{kind}")
+
+
 def correspondence(ctx):
     gen = _gen()
     g = ctx.nprng()
@@ -435,6 +562,10 @@ def correspondence(ctx):
         _corr_mpc(ctx, gen, g)
     for _ in range(ctx.n(200, 8000)):
         _corr_mpd(ctx, gen, g)
+    for _ in range(ctx.n(200, 8000)):
+        _corr_mpd_closed(ctx, gen, g)
+    for _ in range(ctx.n(150, 6000)):
+        _corr_mpc_eigclosed(ctx, gen, g)
     # the pinned unit-test vector
     phi = np.array([1 + 2j, 2 + 3j, 3 + 4j])
     ctx.sample({"phi": "[1+2j,2+3j,3+4j]", "model_mcf": ctx.model("c18_mcf", P=jvec(phi)), "impl_mcf": float(gen.MCF(phi)[0])})
